@@ -150,6 +150,27 @@ impl Ep {
             return Err("first message is not an Allocate request".into());
         }
         ep.pending_txid = Some(d.transaction_id);
+        if bind {
+            // long-term credentials (needed for CreatePermission / ChannelBind later): the first Allocate is challenged
+            let challenge = with_txid(templates::stun("stun.error401"), &d.transaction_id);
+            ep.server.send(&challenge).await;
+            let mut got = None;
+            let Ep { task, server, .. } = &mut ep;
+            pump(
+                &mut [task],
+                || {
+                    if let Some(m) = server.try_recv() {
+                        got = Some(m);
+                    }
+                    got.is_some()
+                },
+                Duration::from_secs(5),
+            )
+            .await;
+            let req = got.ok_or("no authenticated Allocate request after the 401 challenge")?;
+            let d2 = StunMessage::decode(&req).map_err(|e| format!("second Allocate request does not decode: {e}"))?;
+            ep.pending_txid = Some(d2.transaction_id);
+        }
         Ok(ep)
     }
 
@@ -210,6 +231,9 @@ impl Ep {
                 &mut [task],
                 || {
                     while let Some(m) = server.try_recv() {
+                        if std::env::var("VERIF_TRACE").is_ok() {
+                            eprintln!("turn server got {} bytes: {:?}", m.len(), StunMessage::decode(&m).map(|d| (d.class, d.method)));
+                        }
                         if let Ok(d) = StunMessage::decode(&m) {
                             if d.class == StunClass::Request && matches!(d.method, StunMethod::CreatePermission | StunMethod::ChannelBind | StunMethod::Refresh) {
                                 if d.method == StunMethod::ChannelBind {
